@@ -373,7 +373,23 @@ def gated_by(body, gate, target_bb):
     badr = set()
     for g in gate["bad"]:
         badr |= reachable_from(body, g)
-    return target_bb in good and target_bb not in badr
+    if not (target_bb in good and target_bb not in badr):
+        return False
+    # must-pass-through: with the success edges of the gate removed, the target cannot be reached from the entry at all (a path that
+    # goes round the whole test - `if !cache.contains(key) { check()?; }` - reaches it without passing the gate)
+    seen, work = set(), [0]
+    while work:
+        x = work.pop()
+        if x in seen:
+            continue
+        seen.add(x)
+        if x == target_bb:
+            return False
+        for sx in succs(body.blocks[x]):
+            if x == gate["bb"] and sx in gate["good"]:
+                continue
+            work.append(sx)
+    return True
 
 
 def find_gates_for_call(body, all_gates, call_bb):
